@@ -10,6 +10,8 @@ LATE = {
  "C07-D": "line load that varies along the rod (xi-dependent): quadrature rules no longer agree by accident",
  "C08-B": "every element object is evaluated at two or more states at the same `t` (quick tier: one object, two states, instead of two objects with one state each) and at the first state again (bitwise repeatability)",
  "C09-D": "history `late_add`: the law is added to a system that has already been assembled with a non-zero `angle0`",
+ "C10-C": "history in the float supplements: after a rod has been evaluated it is given a second stress-free reference (`set_reference_strains`), which must be stress free as well",
+ "C10-D": "the second material law (`Harsch2021`) on displacement-based rods of all three families, straight and curved references",
  "C11-A": "central-difference supplement for the SE(3) family's cross-section Jacobians (outside the rational core)",
  "C11-B": "inertia checks on rods with graded and curved references (three elements whose element matrices differ)",
  "C11-D": "mixed rods with internal constraints (the independent stress fields carry the remaining impressed components only) added to the weak-form records",
